@@ -6,15 +6,6 @@ Import ListNotations.
 Open Scope Z_scope.
 
 (* ------------------------------------------------------------------ *)
-(* smooth.lp with pad = 0: ts_[0:-0] is empty                          *)
-(* ------------------------------------------------------------------ *)
-Lemma lp_pad_zero_empty (A : Type) (filt : list A -> list A) (x : list A) : lp filt 0 x = [].
-Proof.
-  unfold lp, pyslice. cbn [Z.opp]. unfold norm_idx. cbn [Z.ltb Z.compare].
-  replace (Z.min 0 (Z.of_nat (length (filt (edge_pad 0 x))))) with 0 by lia.
-  reflexivity.
-Qed.
-(* ------------------------------------------------------------------ *)
 (* generic sums                                                        *)
 (* ------------------------------------------------------------------ *)
 Lemma zsum_app l1 l2 : zsum (l1 ++ l2) = zsum l1 + zsum l2.
@@ -603,6 +594,14 @@ Proof.
   rewrite firstn_length, skipn_length. lia.
 Qed.
 
+Lemma pyslice_length_pos {A} a b (l : list A) :
+  0 <= a <= b -> b <= Z.of_nat (length l) -> Z.of_nat (length (pyslice a b l)) = b - a.
+Proof.
+  intros Ha Hb. unfold pyslice, norm_idx.
+  destruct (Z.ltb_spec a 0); [lia|]. destruct (Z.ltb_spec b 0); [lia|].
+  rewrite firstn_length, skipn_length. lia.
+Qed.
+
 Lemma firstn_incl {A} n (l : list A) x : In x (firstn n l) -> In x l.
 Proof. intros H. rewrite <- (firstn_skipn n l). apply in_or_app. now left. Qed.
 Lemma skipn_incl {A} n (l : list A) x : In x (skipn n l) -> In x l.
@@ -663,13 +662,13 @@ Proof.
 Qed.
 
 Theorem lp_keeps_length {A} (filt : list A -> list A) lpad (x : list A) :
-  (forall l, length (filt l) = length l) -> 0 < lpad -> length (lp filt lpad x) = length x.
+  (forall l, length (filt l) = length l) -> 0 <= lpad -> length (lp filt lpad x) = length x.
 Proof.
-  intros Hf Hl. destruct x as [|a x].
-  - unfold lp, pyslice. assert (H0 : length (filt (edge_pad lpad [])) = 0%nat) by (rewrite Hf; reflexivity).
+  intros Hf Hl. unfold lp. cbv zeta. destruct x as [|a x].
+  - unfold pyslice. assert (H0 : length (filt (edge_pad lpad [])) = 0%nat) by (rewrite Hf; reflexivity).
     rewrite firstn_length, skipn_length, H0. cbn [length]. lia.
-  - unfold lp. apply Nat2Z.inj. pose proof (edge_pad_length lpad (a :: x) ltac:(lia) ltac:(discriminate)).
-    rewrite pyslice_length; rewrite ?Hf; lia.
+  - apply Nat2Z.inj. pose proof (edge_pad_length lpad (a :: x) ltac:(lia) ltac:(discriminate)).
+    rewrite pyslice_length_pos; rewrite ?Hf; lia.
 Qed.
 
 (* a positive pad always gives a positive pad length (n * pad in float64, then ceil) *)
@@ -684,6 +683,14 @@ Proof.
   { etransitivity; [|exact Hlo]. apply Z.pow_le_mono_r; lia. }
   assert (0 < N / 2 ^ sh) by (apply Z.div_str_pos; lia).
   destruct (_ || _); nia.
+Qed.
+
+Lemma lpad_of_nonneg n m e : 0 <= n -> 0 <= m -> 0 <= e -> 0 <= lpad_of n m e.
+Proof.
+  intros Hn Hm He. unfold lpad_of. apply cdiv_nonneg; [apply Z.pow_pos_nonneg; lia|].
+  assert (H : 0 <= n * m) by nia. destruct (Z.eq_dec (n * m) 0) as [E|E].
+  - rewrite E. reflexivity.
+  - pose proof (rne53_pos (n * m) ltac:(lia)). lia.
 Qed.
 
 Lemma lpad_of_pos n m e : 0 < n -> 0 < m -> 0 <= e -> 0 < lpad_of n m e.
@@ -708,15 +715,15 @@ Proof.
 Qed.
 
 Theorem lp_constant {A} (filt : list A -> list A) lpad (c : A) (n : nat) :
-  (forall k, filt (repeat c k) = repeat c k) -> 0 < lpad ->
+  (forall k, filt (repeat c k) = repeat c k) -> 0 <= lpad ->
   lp filt lpad (repeat c n) = repeat c n.
 Proof.
   intros Hf Hl.
   assert (Hlen : length (lp filt lpad (repeat c n)) = n).
-  { destruct n as [|n]; [|].
-    - unfold lp, edge_pad. cbn [repeat]. change (@nil A) with (repeat c 0). rewrite Hf. unfold pyslice.
+  { unfold lp; cbv zeta. destruct n as [|n]; [|].
+    - unfold edge_pad. cbn [repeat]. change (@nil A) with (repeat c 0). rewrite Hf. unfold pyslice.
       rewrite firstn_length, skipn_length. cbn [repeat length]. lia.
-    - unfold lp. apply Nat2Z.inj.
+    - apply Nat2Z.inj.
       assert (He : edge_pad lpad (repeat c (S n)) = repeat c (length (edge_pad lpad (repeat c (S n))))).
       { apply all_eq_repeat. intros y Hy. unfold edge_pad in Hy. cbn [repeat] in Hy.
         apply in_app_or in Hy. destruct Hy as [Hy|Hy]; [now apply repeat_spec in Hy|].
@@ -726,8 +733,8 @@ Proof.
           clear. generalize (S n). intros k. induction k as [|k IH]; [reflexivity|].
           cbn [repeat last]. destruct k; [reflexivity | exact IH]. }
       rewrite He, Hf. pose proof (edge_pad_length lpad (repeat c (S n)) ltac:(lia) ltac:(discriminate)) as Hp.
-      rewrite repeat_length in Hp. rewrite pyslice_length; rewrite ?repeat_length; lia. }
-  rewrite <- Hlen at 2. apply all_eq_repeat. intros y Hy. unfold lp in Hy. apply pyslice_incl in Hy.
+      rewrite repeat_length in Hp. rewrite pyslice_length_pos; rewrite ?repeat_length; lia. }
+  rewrite <- Hlen at 2. apply all_eq_repeat. intros y Hy. unfold lp in Hy. cbv zeta in Hy. apply pyslice_incl in Hy.
   assert (He : forall z, In z (edge_pad lpad (repeat c n)) -> z = c).
   { intros z Hz. unfold edge_pad in Hz. destruct n as [|n]; [destruct Hz|]. cbn [repeat] in Hz.
     apply in_app_or in Hz. destruct Hz as [Hz|Hz]; [now apply repeat_spec in Hz|].
